@@ -34,3 +34,15 @@ DERIVATIVE_OF = [
   ("derivative._qderiv_actuator_passive_vel", "forward._actuator_force"),
 ]
 DERIVATIVE_FLAGS = ["ACTUATION", "SPRING", "DAMPER"]
+
+# (velocity-derivative kernel, force kernel, DisableBits that must be clear for the force to have a velocity-dependent
+# part) - whenever the force kernel is launched under a flag assignment with those bits clear, the implicit integrators
+# must still reach the derivative kernel (R-FLAGS.4). The tendon kernel computes spring+damper; only the damper part has
+# a velocity derivative, hence DAMPER must be clear for the obligation to arise.
+DERIVATIVE_NEEDED = [
+  ("derivative._qderiv_ellipsoid_fluid", "passive._fluid_force", []),
+  ("derivative._qderiv_box_fluid", "passive._fluid_force", []),
+  ("derivative._qderiv_tendon_damping", "passive._spring_damper_tendon_passive", ["DAMPER"]),
+  ("derivative._qderiv_actuator_passive_vel", "forward._actuator_force", []),
+]
+IMPLICIT_INTEGRATORS = ["IMPLICIT", "IMPLICITFAST"]
